@@ -222,6 +222,19 @@ func (g *Gen) assignKeys(con *Contract, fn *ssa.Function, li *loopInfo) bool {
 			if !found {
 				return false
 			}
+		case *SCall:
+			if e.Fun == "elems" && len(e.Args) == 1 {
+				t := g.staticTypeOf(e.Args[0], fn)
+				if t == nil {
+					return false
+				}
+				if sl, ok := t.Underlying().(*types.Slice); ok {
+					k, _ := g.elemKey(sl.Elem())
+					li.heapKey[k] = true
+					continue
+				}
+			}
+			return false
 		default:
 			return false
 		}
@@ -432,6 +445,13 @@ func (fr *Frame) execCall(st *State, c *ssa.CallCommon, site ssa.Value) Val {
 		return fr.callStatic(st, fv.Fn, args, fv.Bind, resT)
 	}
 	fr.safety(st, "nilfunc", "(not (= "+fv.S+" 0))", "call of nil function value")
+	// a contract on the named function type?
+	if n, ok := types.Unalias(c.Value.Type()).(*types.Named); ok && n.Obj().Pkg() != nil {
+		if con := g.P.contracts[n.Obj().Pkg().Name()+"."+n.Obj().Name()]; con != nil && con.Iface {
+			g.note("calls through values of type " + n.Obj().Name() + " use the functype contract (every function of that type is assumed to satisfy it)")
+			return fr.applyFuncTypeContract(st, con, c, args, resT)
+		}
+	}
 	g.note("call through unknown function value havocked in " + fr.fn.String())
 	return fr.havocCall(st, args, resT, "dyn")
 }
@@ -626,6 +646,21 @@ func (fr *Frame) havocLoc(st *State, pre *State, e SExpr, env *callEnv, pkg stri
 	case *SUnary:
 		if x.Op == "*" {
 			fr.havocLoc(st, pre, x.X, env, pkg)
+			return
+		}
+		fail("assigns: unsupported location")
+	case *SCall:
+		if x.Fun == "elems" && len(x.Args) == 1 {
+			// elems(s): the contents of the backing array of slice s
+			sv := fr.evalSpec(x.Args[0], ctx)
+			sl, ok := sv.T.Underlying().(*types.Slice)
+			if !ok {
+				fail("assigns: elems() of non-slice")
+			}
+			key, srt := g.elemKey(sl.Elem())
+			h := st.heap.get(g, key)
+			na := g.declare("hv", "(Array "+g.idxSort()+" "+g.S.sortOf(sl.Elem())+")")
+			st.heap.set(key, g.define("he", srt, "(store "+h+" (sl_ref "+sv.Term+") "+na+")"))
 			return
 		}
 		fail("assigns: unsupported location")
@@ -857,6 +892,43 @@ func (fr *Frame) applyIfaceContract(st *State, con *Contract, c *ssa.CallCommon,
 	return res
 }
 
+func (fr *Frame) applyFuncTypeContract(st *State, con *Contract, c *ssa.CallCommon, args []Val, resT types.Type) Val {
+	g := fr.g
+	sig := c.Signature()
+	pre := st.clone()
+	env := &callEnv{names: map[string]Val{}}
+	names := headerParamNames(con.Header)
+	for i := 0; i < sig.Params().Len() && i < len(args); i++ {
+		n := sig.Params().At(i).Name()
+		if i < len(names) {
+			n = names[i]
+		}
+		env.names[n] = args[i]
+	}
+	for i, rq := range con.Requires {
+		t := fr.evalBool(rq.Expr, &specCtx{fr: fr, st: st, old: pre, kind: ctxCallPre, call: env, pkg: con.Pkg})
+		g.oblige("pre", fmt.Sprintf("%s.%d", shortKey(con.Key), i+1), st.path, t, "precondition of "+con.Key+": "+rq.Text)
+		g.assumeUnder(st.path, t)
+	}
+	if !con.HasAssigns {
+		st.heap = g.havocHeap(st.heap, true)
+		g.bumpTop(st)
+	} else {
+		for _, as := range con.Assigns {
+			fr.havocLoc(st, pre, as.Expr, env, con.Pkg)
+		}
+	}
+	res := g.havocVal("r_"+sanitize(shortKey(con.Key)), resT)
+	fr.knownRefVal(st, res)
+	env.results = unpack(res)
+	env.resNames = map[string]int{}
+	for _, en := range con.Ensures {
+		t := fr.evalBool(en.Expr, &specCtx{fr: fr, st: st, old: pre, kind: ctxCallPost, call: env, pkg: con.Pkg})
+		g.assumeUnder(st.path, t)
+	}
+	return res
+}
+
 func headerParamNames(h string) []string {
 	i := strings.Index(h, "(")
 	if i < 0 {
@@ -1001,9 +1073,11 @@ func (fr *Frame) execAppend(st *State, c *ssa.CallCommon) Val {
 	ncap := g.declare("ncap", g.idxSort())
 	g.assume(g.idxLe(newLen, ncap))
 	g.assume(g.idxLe(ncap, g.idxConst(1<<40)))
-	res := g.define("app", "Slice", ite(fits,
+	// a declared constant (not a macro): it appears inside quantifier patterns below
+	res := g.declare("app", "Slice")
+	g.assume("(= " + res + " " + ite(fits,
 		"(mk_slice (sl_ref "+s.S+") (sl_off "+s.S+") "+newLen+" (sl_cap "+s.S+"))",
-		"(mk_slice "+fresh+" "+g.idxConst(0)+" "+newLen+" "+ncap+")"))
+		"(mk_slice "+fresh+" "+g.idxConst(0)+" "+newLen+" "+ncap+")") + ")")
 	// contents of the resulting backing array
 	idxS := g.idxSort()
 	es := g.S.sortOf(el)
